@@ -283,12 +283,25 @@ Module DacTree.
     /\ snd (go_rename dfs (svu alice 18) o p) = SErr EACCES.
   Proof.
     split; [|vm_compute; reflexivity].
-    apply (dstep_rename_replace_result dfs (svu alice 18) [n_e] n_q [n_h] n_f (dtree_hyps alice 18)); [path_ok_tac|path_ok_tac| | | |].
+    apply (dstep_rename_replace_result dfs (svu alice 18) [n_e] n_q [n_h] n_f (dtree_hyps alice 18)); [path_ok_tac|path_ok_tac| | |].
     - intros par kind name n HK. vm_compute in HK. injection HK as _ _ _ <-. reflexivity.
     - eexists _, _, _, _. vm_compute. reflexivity.
     - intros par kind name n HK. vm_compute in HK. injection HK as _ _ _ <-. split; reflexivity.
-    - intros opar okind oname oc npar nkind nname nc HKo HKn. vm_compute in HKo, HKn.
-      injection HKo as _ _ _ <-. injection HKn as _ _ _ <-. discriminate.
+  Qed.
+
+  (* a rename onto itself needs no permission: carol may neither search /h nor write /e, but Rename(/e/q, /e/q) succeeds on
+     both sides (the former deviation C03-RENAME-SAME: MemFS tested the write permission on /e first) *)
+  Example rename_same_no_permission :
+    let o := abs_path ([n_e] ++ [n_q]) in
+    proj_res Linux (snd (rename dfs (view_of carol 18) o o)) = snd (go_rename dfs (svu carol 18) o o)
+    /\ snd (go_rename dfs (svu carol 18) o o) = SOk
+    /\ kperm dtree 4 2 carol = false.
+  Proof.
+    split; [|split; vm_compute; reflexivity].
+    apply (dstep_rename_replace_result dfs (svu carol 18) [n_e] n_q [n_e] n_q (dtree_hyps carol 18)); [path_ok_tac|path_ok_tac| | |].
+    - intros par kind name n HK. vm_compute in HK. injection HK as _ _ _ <-. reflexivity.
+    - eexists _, _, _, _. vm_compute. reflexivity.
+    - intros par kind name n HK. vm_compute in HK. injection HK as _ _ _ <-. split; reflexivity.
   Qed.
 
   (* ---- Remove in a sticky directory.  /t is sticky, /t/b is bob's: alice (who may write /t) is refused with EPERM on
